@@ -367,3 +367,98 @@ def blocklisted_count_changes_other_categories(factor=50):
     except Exception as e:  # noqa
         out["exc"] = f"{type(e).__name__}: {e}"
     return out
+
+
+def get_units_direct(unit, thr, lo, hi, unit_blocklisted, state_blocklisted, flag_turnout, flag_margin, fit_t, fit_m, many, estimands=("turnout",)):
+    """REAL CombinedDataHandler.get_units on a handler whose joined table holds the solver's unit (plus clean filler
+    units: 2, or 22 when the outlier models are enabled by count).  The outlier model itself is stubbed by the
+    contract the proof used (it flags exactly the rows the model says).  Returns where the unit ended up."""
+    from elexmodel.handlers.data.CombinedData import CombinedDataHandler
+
+    uid = "X_0001"
+    cols = ["postal_code", "geographic_unit_fips", "percent_expected_vote", "baseline_weights", "turnout_factor", "results_weights", "results_turnout", "last_election_results_turnout", "results_normalized_margin", "results_margin", "last_election_results_margin"]
+    rows, feed = [], []
+    if unit["inData"]:
+        rows.append({"postal_code": "XX", "geographic_unit_fips": uid, "percent_expected_vote": unit["pev"], "baseline_weights": unit["bw"], "turnout_factor": unit["tf"], "results_weights": 10.0, "results_turnout": 10.0, "last_election_results_turnout": 11.0, "results_normalized_margin": 0.1, "results_margin": 1.0, "last_election_results_margin": 2.0})
+    if unit["inFeed"]:
+        feed.append({"postal_code": "XX", "geographic_unit_fips": uid, "percent_expected_vote": unit["pev"], "results_turnout": 10.0})
+    for i in range(22 if many else 2):
+        rows.append({"postal_code": "ZZ", "geographic_unit_fips": f"F_{i}", "percent_expected_vote": 1e9 if i else -1.0, "baseline_weights": 100.0, "turnout_factor": (lo + hi) / 2 if hi > lo else 1.0, "results_weights": 100.0, "results_turnout": 100.0, "last_election_results_turnout": 101.0, "results_normalized_margin": 0.0, "results_margin": 0.0, "last_election_results_margin": 1.0})
+        feed.append({"postal_code": "ZZ", "geographic_unit_fips": f"F_{i}", "percent_expected_vote": 1e9 if i else -1.0, "results_turnout": 100.0})
+    h = CombinedDataHandler.__new__(CombinedDataHandler)
+    h.estimands = list(estimands)
+    h.data = pd.DataFrame(rows, columns=cols)
+    h.current_data = pd.DataFrame(feed, columns=["postal_code", "geographic_unit_fips", "percent_expected_vote", "results_turnout"])
+    h.preprocessed_data = h.data
+    h.geographic_unit_type = "county"
+    h.n_minimum_for_outlier_detection_model = 20
+
+    def stub(reporting_units, response_variable, z):
+        flag = flag_turnout if response_variable == "turnout_factor" else flag_margin
+        return reporting_units[(reporting_units.geographic_unit_fips == uid) & flag].copy()
+
+    h._fit_outlier_detection_model = stub
+    out = {"exc": None}
+    try:
+        rep, non, third = h.get_units(thr, lo, hi, [uid] if unit_blocklisted else [], ["XX"] if state_blocklisted else [], fit_m, fit_t, 2.0, ["postal_code", "unit"])
+        where = [k for k, f in (("reporting", rep), ("nonreporting", non), ("third", third)) if (f.geographic_unit_fips == uid).any()]
+        out["where"] = where
+        out["category"] = [str(x) for f in (rep, non, third) for x in f.loc[f.geographic_unit_fips == uid, "unit_category"]]
+    except Exception as e:  # noqa
+        out["exc"] = f"{type(e).__name__}: {e}"
+    return out
+
+
+def aggregate_replay(keys, estimator="nonparametric", alpha=0.9):
+    """REAL get_aggregate_predictions (+ nonparametric aggregate intervals) on a tiny hand-built election that has
+    every kind of unit (reporting, outstanding with partial counts, unexpected with / without a county, non-modelled,
+    groups that exist only through third-frame or only through outstanding units); identities of C01/C02/C03/C11
+    are recomputed with plain python loops from the statement."""
+    from elexmodel.models.ConformalElectionModel import PredictionIntervals
+    from elexmodel.models.NonparametricElectionModel import NonparametricElectionModel
+
+    E = "turnout"
+    lo_s, up_s = f"lower_{alpha}_{E}", f"upper_{alpha}_{E}"
+
+    def unit(i, st, cty, cls, dist, res, rep, pred=None, lo=None, up=None, cat="expected"):
+        return {"postal_code": st, "county_fips": cty, "county_classification": cls, "district": dist, "geographic_unit_fips": f"u{i}", f"results_{E}": res, "reporting": rep, f"pred_{E}": res if pred is None else pred, lo_s: res if lo is None else lo, up_s: res if up is None else up, "unit_category": cat}
+
+    rep = pd.DataFrame([unit(1, "AA", "c1", "urban", "d1", 100, 1), unit(2, "AA", "c1", "rural", "d1", 50, 1), unit(3, "BB", "c3", "urban", "d2", 70, 1)])
+    non = pd.DataFrame([unit(4, "AA", "c1", "urban", "d1", 10, 0, 40, 35, 60), unit(5, "AA", "c2", "rural", "d2", 0, 0, 90, 80, 120), unit(6, "BB", "c4", "rural", "d3", 5, 0, 30, 20, 44)])
+    third = pd.DataFrame([unit(7, "AA", "c1", np.nan, "d1", 7, 0, cat="unexpected"), unit(8, "BB", "c9", np.nan, "d9", 3, 0, cat="unexpected"), unit(9, "BB", "c3", "urban", "d2", 11, 0, cat="non-modeled: blocklisted")])
+    m = NonparametricElectionModel({})
+    out = {"exc": None, "problems": []}
+    try:
+        est = m.get_aggregate_predictions(rep, non, third, list(keys), E)
+        pi = m.get_aggregate_prediction_intervals(rep, non, third, list(keys), alpha, PredictionIntervals(None, None, None), E)
+    except Exception as e:  # noqa
+        out["exc"] = f"{type(e).__name__}: {e}"
+        return out
+    cls = "county_classification" in keys
+    groups = {}
+    for fr, kind in ((rep, "R"), (non, "N"), (third, "T")):
+        for _, r in fr.iterrows():
+            if kind == "T" and cls:
+                continue
+            k = tuple(r[c] for c in keys)
+            if any(isinstance(x, float) and x != x for x in k):
+                continue
+            g = groups.setdefault(k, {"res": 0, "pred": 0, "lo": 0, "up": 0, "rep": 0})
+            g["res"] += r[f"results_{E}"]
+            g["pred"] += r[f"pred_{E}"]
+            g["lo"] += r[lo_s]
+            g["up"] += r[up_s]
+            g["rep"] += r["reporting"]
+    want = sorted(groups)
+    got = [tuple(x) for x in est[list(keys)].values.tolist()]
+    if got != want:
+        out["problems"].append({"rows": got, "expected_rows": want})
+    else:
+        for i, k in enumerate(want):
+            g = groups[k]
+            obs = (est[f"results_{E}"][i], est[f"pred_{E}"][i], est["reporting"][i], pi.lower[i], pi.upper[i])
+            exp = (g["res"], g["pred"], g["rep"], g["lo"], g["up"])
+            if any(abs(a - b) > 1e-9 for a, b in zip(obs, exp)):
+                out["problems"].append({"group": k, "observed(results,pred,reporting,lower,upper)": [float(x) for x in obs], "expected": [float(x) for x in exp]})
+    out["ok"] = not out["problems"]
+    return out
